@@ -3,6 +3,8 @@ length, structured + random keys and blocks, compared with the Lean model (which
 from ..common import hx, build_harness, CONFIGS
 from .. import registry
 
+SHAPES = ["b2b", "inout", "inplace", "b2b1", "inout1", "single"]
+
 
 def gen_encdec(chk, reg, names, per_len, per_len_var):
     r = chk.rng
@@ -21,6 +23,21 @@ def gen_encdec(chk, reg, names, per_len, per_len_var):
                         op = f"{d} {e['name']} {hx(k)} {hx(b)}"
                         ops.append(op)
                         chk.case((e["name"], d, hx(k), hx(b)), nontrivial=any(k), sample=op if r.below(700) == 0 else None)
+            # the same function through the multi-block / out-of-place entry points ("computes X" holds for whichever call
+            # shape reaches the cipher): batches around the parallel widths, all blocks different, rotating shapes and offsets
+            hot = e["name"].startswith(("Aes", "Kuz"))
+            nb = max(2, (per_len if len(lens) == 1 else per_len_var) // (6 if hot else 12))
+            for i in range(nb):
+                k = r.bytes(L)
+                cnt = 1 + r.below(24 if hot else 4)
+                data = b"".join(r.bytes(e["bl"]) for _ in range(cnt))
+                sh = SHAPES[(i + L) % len(SHAPES)]
+                for d in ("enc", "dec"):
+                    if d[0] in e["caps"]:
+                        op = f"{d}s {e['name']} {sh} {r.below(16)} {hx(k)} {hx(data)}"
+                        ops.append(op)
+                        chk.case((e["name"], d + "s", sh, hx(k), hx(data)[:48]), nontrivial=True,
+                                 sample=op[:200] if r.below(400) == 0 else None)
     return ops
 
 
